@@ -1,6 +1,6 @@
 (* C12 — lemmas and proofs about the mempool models (C12/Model.v). *)
 From Coq Require Import List ZArith NArith Bool Lia Permutation.
-From TM Require Import Common.Hex C12.Model.
+From TM Require Import Common.Hex Generated.Consts C12.Model.
 Import ListNotations.
 Open Scope Z_scope.
 
@@ -203,7 +203,7 @@ Proof. intros t m m' c H [pre [post [E Hl]]]. exists pre, post. split; [assumpti
 
 (* the cache part of Update's loop over the block *)
 Definition cache_update_one (cfg : config) (c : list tx) (tc : tx * Z) : list tx :=
-  if snd tc =? 0 then fst (cache_push (cfg_cache_size cfg) c (fst tc))
+  if snd tc =? abci_code_type_ok then fst (cache_push (cfg_cache_size cfg) c (fst tc))
   else if cfg_keep_invalid cfg then c else cache_remove c (fst tc).
 
 Lemma recent_update_other : forall cfg c t tc m,
@@ -211,7 +211,7 @@ Lemma recent_update_other : forall cfg c t tc m,
   Recent t m c -> Recent t (S m) (cache_update_one cfg c tc).
 Proof.
   intros cfg c t [t' code] m Hc Hne Hm HR. unfold cache_update_one. cbn [fst snd] in *.
-  destruct (code =? 0).
+  destruct (code =? abci_code_type_ok).
   - apply recent_push_other; auto.
   - destruct (cfg_keep_invalid cfg).
     + eapply recent_weaken; [|exact HR]. lia.
@@ -397,7 +397,7 @@ Lemma update_one0_pool : forall cfg s tc, Inv0 cfg s ->
   pool0 (update_one0 cfg s tc) = remove_tx (fst tc) (pool0 s).
 Proof.
   intros cfg s [t code] I. unfold update_one0. cbn [fst].
-  set (c := if code =? 0 then _ else _). cbn [set_cache0 s_keys].
+  set (c := if code =? abci_code_type_ok then _ else _). cbn [set_cache0 s_keys].
   destruct (mem_tx t (s_keys s)) eqn:Em.
   - rewrite pool0_remove. reflexivity.
   - apply mem_tx_nIn in Em. rewrite (i0_keys _ _ I) in Em. rewrite remove_tx_notin by assumption. reflexivity.
@@ -413,9 +413,9 @@ Qed.
 Lemma inv0_update_one : forall cfg s tc, Inv0 cfg s -> Inv0 cfg (update_one0 cfg s tc).
 Proof.
   intros cfg s [t code] I. unfold update_one0.
-  set (c := if code =? 0 then _ else _).
+  set (c := if code =? abci_code_type_ok then _ else _).
   assert (Hc : CacheOk (cfg_cache_size cfg) c).
-  { subst c. destruct (code =? 0); [apply cache_push_ok; apply I|].
+  { subst c. destruct (code =? abci_code_type_ok); [apply cache_push_ok; apply I|].
     destruct (cfg_keep_invalid cfg); [apply I | apply cache_remove_ok; apply I]. }
   pose proof (inv0_set_cache cfg s c I Hc) as I1.
   destruct (mem_tx t (s_keys (set_cache0 s c))) eqn:Em; [|assumption].
@@ -1054,3 +1054,683 @@ Proof.
   cbn. inversion ND; subst. constructor; [|apply IH; assumption].
   intro H. apply H1. eapply In_firstn_incl. exact H.
 Qed.
+
+Lemma NoDup_map_filter : forall {A B} (f : A -> B) (g : A -> bool) l,
+  NoDup (map f l) -> NoDup (map f (filter g l)).
+Proof.
+  intros A B f g l. induction l as [|x l IH]; intro ND; [constructor|]. cbn in *.
+  inversion ND; subst. destruct (g x); cbn; [constructor|]; auto.
+  intro H. apply H1. apply in_map_iff in H as [y [E Hy]]. apply filter_In in Hy as [Hy _].
+  rewrite <- E. apply in_map. assumption.
+Qed.
+
+Lemma evict_loop_enough : forall need vs e,
+  need <= e + sum_sizes (map w_tx vs) -> vs <> [] ->
+  need <= e + sum_sizes (map w_tx (evict_loop need e vs)).
+Proof.
+  intros need. induction vs as [|x vs IH]; intros e H Hne; [congruence|].
+  cbn [evict_loop map]. cbn [map] in H. rewrite sum_sizes_cons in H.
+  destruct (e + tx_size (w_tx x) >=? need) eqn:E.
+  - cbn [map]. rewrite sum_sizes_cons. change (sum_sizes []) with 0. rewrite Z.geb_leb in E. apply Z.leb_le in E. lia.
+  - cbn [map]. rewrite sum_sizes_cons. rewrite Z.geb_leb in E. apply Z.leb_gt in E.
+    destruct vs as [|y vs].
+    + change (sum_sizes (map w_tx [])) with 0 in H. lia.
+    + specialize (IH (e + tx_size (w_tx x))). lia || (assert (y :: vs <> []) by discriminate; specialize (IH ltac:(lia) H0); lia).
+Qed.
+
+Lemma evict_loop_nonempty : forall need vs e, vs <> [] -> exists w r, evict_loop need e vs = w :: r /\ In w vs.
+Proof.
+  intros need vs e H. destruct vs as [|x vs]; [congruence|]. cbn.
+  destruct (e + tx_size (w_tx x) >=? need); eexists; eexists; split; try reflexivity; left; reflexivity.
+Qed.
+
+Lemma can_add1_true : forall cfg s t, can_add1 cfg s t = true ->
+  Z.of_nat (length (t_txs s)) < cfg_size cfg /\ tx_size t + t_bytes s <= cfg_max_txs_bytes cfg.
+Proof.
+  intros cfg s t H. unfold can_add1 in H. apply negb_true_iff in H. apply orb_false_iff in H as [H1 H2].
+  rewrite Z.geb_leb in H1. apply Z.leb_gt in H1. rewrite Z.gtb_ltb in H2. apply Z.ltb_ge in H2. lia.
+Qed.
+
+Lemma victims1_facts : forall cfg s t prio vs, Inv1 cfg s -> victims1 cfg s t prio = Some vs ->
+  incl vs (t_txs s) /\ NoDup (map w_tx vs) /\ (forall w, In w vs -> w_prio w < prio) /\
+  Z.of_nat (length (t_txs (fold_left evict_one1 vs s))) + 1 <= Z.max 0 (cfg_size cfg) /\
+  t_bytes s - sum_sizes (map w_tx vs) + tx_size t <= Z.max 0 (cfg_max_txs_bytes cfg).
+Proof.
+  intros cfg s t prio vs I H. unfold victims1 in H.
+  destruct (can_add1 cfg s t) eqn:Ec.
+  - injection H as <-. apply can_add1_true in Ec as [E1 E2].
+    split; [intros x []|]. split; [constructor|]. split; [intros w []|]. cbn [fold_left map].
+    change (sum_sizes []) with 0. lia.
+  - set (V := filter (fun w => w_prio w <? prio) (t_txs s)) in *.
+    set (S := sort_by victim_before V) in *.
+    destruct (Nat.eqb (length V) 0 || (sum_sizes (map w_tx V) <? tx_size t)) eqn:Ed; [discriminate|].
+    injection H as <-. apply orb_false_iff in Ed as [Ed1 Ed2].
+    apply Nat.eqb_neq in Ed1. apply Z.ltb_ge in Ed2.
+    assert (PS : Permutation S V) by apply sort_by_perm.
+    assert (HinV : forall w, In w V -> In w (t_txs s) /\ w_prio w < prio).
+    { intros w Hw. apply filter_In in Hw as [Hw Hp]. apply Z.ltb_lt in Hp. auto. }
+    assert (HinS : forall w, In w S -> In w V) by (intros w Hw; eapply Permutation_in; eassumption).
+    assert (Sne : S <> []).
+    { intro E. rewrite E in PS. apply Permutation_nil in PS. rewrite PS in Ed1. cbn in Ed1. congruence. }
+    split; [|split; [|split; [|split]]].
+    + intros w Hw. apply evict_loop_incl in Hw. apply HinS, HinV in Hw. tauto.
+    + destruct (evict_loop_prefix (tx_size t) S 0) as [k ->]. rewrite <- firstn_map. apply NoDup_firstn.
+      eapply Permutation_NoDup; [apply Permutation_map; symmetry; exact PS|].
+      apply NoDup_map_filter. apply I.
+    + intros w Hw. apply evict_loop_incl in Hw. apply HinS, HinV in Hw. tauto.
+    + destruct (evict_loop_nonempty (tx_size t) S 0 Sne) as [w [r [E Hw]]]. rewrite E.
+      apply HinS, HinV in Hw as [Hw _].
+      pose proof (length_evict_fold_lt r s w Hw). pose proof (i1_count _ _ I). lia.
+    + pose proof (evict_loop_enough (tx_size t) S 0) as He.
+      rewrite (sum_sizes_perm _ _ (Permutation_map w_tx PS)) in He.
+      specialize (He ltac:(lia) Sne). pose proof (i1_maxb _ _ I). lia.
+Qed.
+
+Lemma senders_of_app : forall a b, senders_of (a ++ b) = senders_of a ++ senders_of b.
+Proof. intros. unfold senders_of. rewrite map_app, filter_app. reflexivity. Qed.
+
+Lemma NoDup_snocN : forall (l : list N) t, NoDup l -> ~ In t l -> NoDup (l ++ [t]).
+Proof.
+  intros l t ND H. induction l as [|x l IH]; cbn; [constructor; [intros []|constructor]|].
+  inversion ND; subst. constructor.
+  - rewrite in_app_iff. intros [H'|[->|[]]]; [contradiction|]. apply H. left. reflexivity.
+  - apply IH; [assumption | intro; apply H; right; assumption].
+Qed.
+
+Lemma mem_sender_In : forall a l, mem_sender a l = true <-> In a l.
+Proof.
+  intros. unfold mem_sender. rewrite existsb_exists. split.
+  - intros [x [Hx E]]. apply N.eqb_eq in E. subst. assumption.
+  - intro H. exists a. split; [assumption | apply N.eqb_refl].
+Qed.
+
+Lemma inv1_insert : forall cfg s w, Inv1 cfg s -> ~ In (w_tx w) (pool1 s) ->
+  (w_sender w = 0%N \/ ~ In (w_sender w) (t_senders s)) ->
+  Z.of_nat (length (t_txs s)) + 1 <= Z.max 0 (cfg_size cfg) ->
+  t_bytes s + tx_size (w_tx w) <= Z.max 0 (cfg_max_txs_bytes cfg) ->
+  Inv1 cfg (insert_wtx1 s w).
+Proof.
+  intros cfg s w I Hk Hs Hc Hb. destruct I.
+  assert (Ep : pool1 (insert_wtx1 s w) = pool1 s ++ [w_tx w]).
+  { unfold pool1, insert_wtx1. cbn [t_txs]. rewrite map_app. reflexivity. }
+  constructor; rewrite ?Ep.
+  - apply NoDup_snoc; assumption.
+  - cbn [insert_wtx1 t_keys]. unfold store_key. rewrite i1_keys0.
+    apply mem_tx_nIn in Hk. rewrite Hk. reflexivity.
+  - cbn [insert_wtx1 t_senders t_txs]. rewrite senders_of_app, <- i1_senders0.
+    unfold senders_of at 1. cbn [map filter].
+    destruct (w_sender w =? 0)%N eqn:Ez; cbn [negb].
+    + rewrite app_nil_r. reflexivity.
+    + destruct Hs as [Hs|Hs]; [rewrite Hs in Ez; discriminate|].
+      apply mem_sender_In in Hs || (destruct (mem_sender (w_sender w) (t_senders s)) eqn:Em;
+        [apply mem_sender_In in Em; contradiction | reflexivity]).
+  - cbn [insert_wtx1 t_senders].
+    destruct (w_sender w =? 0)%N eqn:Ez; [assumption|].
+    destruct (mem_sender (w_sender w) (t_senders s)) eqn:Em; [assumption|].
+    apply NoDup_snocN; [assumption|]. intro H. apply mem_sender_In in H. congruence.
+  - cbn [insert_wtx1 t_bytes]. rewrite sum_sizes_app, i1_bytes0.
+    change (sum_sizes [w_tx w]) with (tx_size (w_tx w) + 0). lia.
+  - cbn [insert_wtx1 t_txs]. rewrite app_length. cbn. lia.
+  - cbn [insert_wtx1 t_bytes]. lia.
+  - assumption.
+Qed.
+
+Lemma inv1_add_new : forall cfg s t p h st v, Inv1 cfg s -> Inv1 cfg (add_new_tx1 cfg s t p h st v).
+Proof.
+  intros cfg s t p h st v I. unfold add_new_tx1.
+  destruct (negb (accepted (t_post s) v)).
+  { destruct (cfg_keep_invalid cfg); [assumption|]. apply inv1_set_cache; [assumption|].
+    apply cache_remove_ok, I. }
+  destruct (mem_tx t (t_keys s)) eqn:Ek; [apply inv1_record_peer; assumption|].
+  destruct (negb (v_sender v =? 0)%N && mem_sender (v_sender v) (t_senders s)) eqn:Es; [assumption|].
+  destruct (victims1 cfg s t (v_prio v)) as [vs|] eqn:Ev.
+  - destruct (victims1_facts _ _ _ _ _ I Ev) as [Hin [ND [_ [Hc Hb]]]].
+    apply inv1_insert; cbn [w_tx w_sender].
+    + apply inv1_evict_fold; assumption.
+    + intro H. apply mem_tx_nIn in Ek. apply Ek.
+      rewrite pool1_evict_fold, remove_all_filter in H. apply filter_In in H as [H _].
+      rewrite (i1_keys _ _ I). assumption.
+    + destruct (v_sender v =? 0)%N eqn:Ez; [left; apply N.eqb_eq; assumption|]. right.
+      cbn in Es. intro H. apply senders_evict_fold in H. apply mem_sender_In in H. congruence.
+    + assumption.
+    + rewrite bytes_evict_fold. lia.
+  - apply inv1_set_cache; [assumption|]. apply cache_remove_ok, I.
+Qed.
+
+Lemma inv1_checktx : forall cfg s t p v, Inv1 cfg s -> Inv1 cfg (fst (fst (checktx1 cfg s t p v))).
+Proof.
+  intros cfg s t p v I. unfold checktx1.
+  destruct (tx_size t >? cfg_max_tx_bytes cfg); [assumption|].
+  destruct (negb (precheck_ok (t_pre s) t)); [assumption|].
+  pose proof (cache_push_ok (cfg_cache_size cfg) (t_cache s) t (i1_cache _ _ I)) as Hc.
+  destruct (cache_push (cfg_cache_size cfg) (t_cache s) t) as [c' fresh]. cbn [fst] in Hc.
+  pose proof (inv1_set_cache _ _ _ I Hc) as I'.
+  destruct fresh; cbn [negb fst].
+  - apply inv1_add_new. apply inv1_tick. assumption.
+  - destruct (mem_tx t (t_keys s)).
+    + apply (inv1_record_peer cfg (set_cache1 s c')). assumption.
+    + destruct I'. constructor; cbn; assumption.
+Qed.
+
+Lemma inv1_flush : forall cfg s, Inv1 cfg s -> Inv1 cfg (flush1 s).
+Proof.
+  intros. constructor; cbn; try lia; try reflexivity; try (constructor; fail). apply cache_ok_nil.
+Qed.
+
+(* --- Update *)
+
+Lemma purge_fold_filter : forall (f : wtx -> bool) l s,
+  fold_left (fun s w => if f w then evict_one1 s w else s) l s = fold_left evict_one1 (filter f l) s.
+Proof.
+  intros f. induction l as [|w l IH]; intro s; cbn [fold_left filter]; [reflexivity|].
+  destruct (f w); cbn [fold_left]; apply IH.
+Qed.
+
+Lemma purge1_eq : forall cfg s h now,
+  purge1 cfg s h now =
+  if (cfg_ttl_blocks cfg =? 0) && (cfg_ttl_dur cfg =? 0) then s
+  else fold_left evict_one1 (filter (expired1 cfg h now) (t_txs s)) s.
+Proof. intros. unfold purge1. destruct (_ && _); [reflexivity|]. apply purge_fold_filter. Qed.
+
+Lemma inv1_purge : forall cfg s h now, Inv1 cfg s -> Inv1 cfg (purge1 cfg s h now).
+Proof.
+  intros cfg s h now I. rewrite purge1_eq. destruct (_ && _); [assumption|].
+  apply inv1_evict_fold; [assumption | apply NoDup_map_filter, I |].
+  intros w Hw. apply filter_In in Hw as [Hw _]. assumption.
+Qed.
+
+Lemma pool1_purge_incl : forall cfg s h now t, In t (pool1 (purge1 cfg s h now)) -> In t (pool1 s).
+Proof.
+  intros cfg s h now t. rewrite purge1_eq. destruct (_ && _); [auto|].
+  rewrite pool1_evict_fold, remove_all_filter. intro H. apply filter_In in H as [H _]. assumption.
+Qed.
+
+Lemma pool1_purge_not_expired : forall cfg s h now w, Inv1 cfg s ->
+  In w (t_txs s) -> In (w_tx w) (pool1 (purge1 cfg s h now)) ->
+  expired1 cfg h now w = false \/ ((cfg_ttl_blocks cfg =? 0) && (cfg_ttl_dur cfg =? 0) = true).
+Proof.
+  intros cfg s h now w I Hw. rewrite purge1_eq. destruct (_ && _); [right; reflexivity|]. left.
+  rewrite pool1_evict_fold, remove_all_filter in H. apply filter_In in H as [_ H].
+  destruct (expired1 cfg h now w) eqn:E; [|reflexivity]. exfalso.
+  apply negb_true_iff in H. apply mem_tx_nIn in H. apply H. apply in_map. apply filter_In. auto.
+Qed.
+
+Lemma inv1_handle_recheck : forall cfg s t v, Inv1 cfg s -> Inv1 cfg (handle_recheck1 cfg s t v).
+Proof.
+  intros cfg s t v I. unfold handle_recheck1. destruct (mem_tx t (t_keys s)); [|assumption].
+  destruct (find_wtx t (t_txs s)) as [w|] eqn:Ef; [|assumption].
+  apply find_wtx_some in Ef as [Hw _].
+  destruct (accepted (t_post s) v); [apply inv1_set_prio; assumption|].
+  pose proof (inv1_remove _ _ _ I Hw) as I'.
+  destruct (cfg_keep_invalid cfg); [assumption|]. apply inv1_set_cache; [assumption|].
+  apply cache_remove_ok. apply I'.
+Qed.
+
+Lemma pool1_handle_recheck : forall cfg s t v, Inv1 cfg s ->
+  pool1 (handle_recheck1 cfg s t v) = if accepted (t_post s) v then pool1 s else remove_tx t (pool1 s).
+Proof.
+  intros cfg s t v I. unfold handle_recheck1. destruct (mem_tx t (t_keys s)) eqn:Em.
+  - destruct (find_wtx t (t_txs s)) as [w|] eqn:Ef.
+    + apply find_wtx_some in Ef as [Hw <-].
+      destruct (accepted (t_post s) v).
+      * unfold pool1. cbn [set_txs1 t_txs]. apply pool1_set_prio.
+      * destruct (cfg_keep_invalid cfg); [apply pool1_remove|].
+        unfold pool1 at 1. cbn [set_cache1 t_txs]. apply pool1_remove.
+    + apply find_wtx_none in Ef. rewrite remove_tx_notin by assumption. destruct (accepted _ _); reflexivity.
+  - apply mem_tx_nIn in Em. rewrite (i1_keys _ _ I) in Em. rewrite remove_tx_notin by assumption.
+    destruct (accepted _ _); reflexivity.
+Qed.
+
+Lemma post_handle_recheck : forall cfg s t v, t_post (handle_recheck1 cfg s t v) = t_post s.
+Proof.
+  intros. unfold handle_recheck1. destruct (mem_tx t (t_keys s)); [|reflexivity].
+  destruct (find_wtx t (t_txs s)); [|reflexivity]. destruct (accepted _ _); [reflexivity|].
+  destruct (cfg_keep_invalid cfg); reflexivity.
+Qed.
+
+Lemma recheck1_fold : forall cfg rv l s, Inv1 cfg s ->
+  let s' := fold_left (fun s t => handle_recheck1 cfg s t (lookup_res rv t)) l s in
+  Inv1 cfg s' /\ t_post s' = t_post s /\
+  pool1 s' = filter (fun x => negb (mem_tx x l) || accepted (t_post s) (lookup_res rv x)) (pool1 s).
+Proof.
+  intros cfg rv. induction l as [|t l IH]; intros s I; cbn [fold_left]; cbv zeta.
+  - split; [assumption|]. split; [reflexivity|]. cbn. induction (pool1 s); cbn; [reflexivity | f_equal; assumption].
+  - destruct (IH (handle_recheck1 cfg s t (lookup_res rv t)) (inv1_handle_recheck _ _ _ _ I)) as [I' [Ep Epool]].
+    cbv zeta in *. split; [assumption|]. rewrite post_handle_recheck in Ep, Epool. split; [assumption|].
+    rewrite Epool, pool1_handle_recheck by assumption.
+    destruct (accepted (t_post s) (lookup_res rv t)) eqn:Ea.
+    + apply filter_ext. intro x. cbn [mem_tx existsb]. fold (mem_tx x l).
+      destruct (tx_eqb x t) eqn:E; [|reflexivity].
+      apply tx_eqb_eq in E. subst x. rewrite Ea. rewrite !orb_true_r. reflexivity.
+    + unfold remove_tx. generalize (pool1 s). intro pl.
+      induction pl as [|x pl IHp]; [reflexivity|].
+      cbn [filter mem_tx existsb]. fold (mem_tx x l). rewrite (tx_eqb_sym x t).
+      destruct (tx_eqb t x) eqn:E; cbn [negb orb].
+      * apply tx_eqb_eq in E. subst x. rewrite Ea. cbn. exact IHp.
+      * cbn [filter]. destruct (negb (mem_tx x l) || accepted (t_post s) (lookup_res rv x)); [f_equal|]; exact IHp.
+Qed.
+
+Lemma inv1_update_one : forall cfg s tc, Inv1 cfg s -> Inv1 cfg (update_one1 cfg s tc).
+Proof.
+  intros cfg s [t code] I. unfold update_one1. apply inv1_remove_by_key. apply inv1_set_cache; [assumption|].
+  destruct (code =? abci_code_type_ok); [apply cache_push_ok, I|].
+  destruct (cfg_keep_invalid cfg); [apply I | apply cache_remove_ok, I].
+Qed.
+
+Lemma update_one1_pool : forall cfg s tc, Inv1 cfg s ->
+  pool1 (update_one1 cfg s tc) = remove_tx (fst tc) (pool1 s).
+Proof.
+  intros cfg s [t code] I. unfold update_one1. cbn [fst].
+  set (c := if code =? abci_code_type_ok then _ else _).
+  assert (Hc : CacheOk (cfg_cache_size cfg) c).
+  { subst c. destruct (code =? abci_code_type_ok); [apply cache_push_ok, I|].
+    destruct (cfg_keep_invalid cfg); [apply I | apply cache_remove_ok, I]. }
+  rewrite (pool1_remove_by_key cfg) by (apply inv1_set_cache; assumption). reflexivity.
+Qed.
+
+Lemma update_one1_cache : forall cfg s tc,
+  t_cache (update_one1 cfg s tc) = cache_update_one cfg (t_cache s) tc.
+Proof.
+  intros cfg s [t code]. unfold update_one1, cache_update_one, remove_by_key1. cbn [fst snd set_cache1 t_keys t_txs].
+  destruct (mem_tx t (t_keys s)); [|reflexivity]. destruct (find_wtx t (t_txs s)); reflexivity.
+Qed.
+
+Lemma update_one1_post : forall cfg s tc, t_post (update_one1 cfg s tc) = t_post s.
+Proof.
+  intros cfg s [t code]. unfold update_one1, remove_by_key1. cbn [fst set_cache1 t_keys t_txs].
+  destruct (mem_tx t (t_keys s)); [|reflexivity]. destruct (find_wtx t (t_txs s)); reflexivity.
+Qed.
+
+Lemma update_fold1 : forall cfg blk s, Inv1 cfg s ->
+  let s' := fold_left (update_one1 cfg) blk s in
+  Inv1 cfg s' /\ pool1 s' = remove_all (map fst blk) (pool1 s) /\
+  t_cache s' = fold_left (cache_update_one cfg) blk (t_cache s) /\ t_post s' = t_post s.
+Proof.
+  intros cfg blk. induction blk as [|tc blk IH]; intros s I; cbn [fold_left map remove_all]; cbv zeta.
+  - split; [assumption|]. repeat split.
+  - destruct (IH _ (inv1_update_one cfg s tc I)) as [I' [Ep [Ec Epost]]]. cbv zeta in *.
+    split; [assumption|]. rewrite Ep, Ec, Epost.
+    rewrite update_one1_pool, update_one1_cache, update_one1_post by assumption. repeat split.
+Qed.
+
+Definition upd_state1 (s : state1) (h : Z) (pre post : option (option Z)) : state1 :=
+  {| t_cache := t_cache s; t_txs := t_txs s; t_keys := t_keys s; t_senders := t_senders s;
+     t_bytes := t_bytes s; t_height := h; t_pre := set_checks (t_pre s) pre;
+     t_post := set_checks (t_post s) post; t_clock := t_clock s |}.
+
+Lemma inv1_upd_state : forall cfg s h pre post, Inv1 cfg s -> Inv1 cfg (upd_state1 s h pre post).
+Proof. intros cfg s h pre post []. constructor; cbn; assumption. Qed.
+
+Lemma update1_unfold : forall cfg s h now blk pre post rv,
+  update1 cfg s h now blk pre post rv =
+  let s3 := purge1 cfg (fold_left (update_one1 cfg) blk (upd_state1 s h pre post)) h now in
+  if cfg_recheck cfg
+  then fold_left (fun s t => handle_recheck1 cfg s t (lookup_res rv t)) (pool1 s3) s3
+  else s3.
+Proof. reflexivity. Qed.
+
+Lemma inv1_update : forall cfg s h now blk pre post rv, Inv1 cfg s ->
+  Inv1 cfg (update1 cfg s h now blk pre post rv).
+Proof.
+  intros cfg s h now blk pre post rv I. rewrite update1_unfold. cbv zeta.
+  destruct (update_fold1 cfg blk _ (inv1_upd_state cfg s h pre post I)) as [I2 _]. cbv zeta in I2.
+  pose proof (inv1_purge cfg _ h now I2) as I3.
+  destruct (cfg_recheck cfg); [|assumption]. apply (recheck1_fold cfg rv _ _ I3).
+Qed.
+
+Lemma purge1_post : forall cfg s h now, t_post (purge1 cfg s h now) = t_post s.
+Proof.
+  intros. rewrite purge1_eq. destruct (_ && _); [reflexivity|].
+  generalize (filter (expired1 cfg h now) (t_txs s)). intro l. revert s.
+  induction l as [|w l IH]; intro s; cbn [fold_left]; [reflexivity|]. rewrite IH. reflexivity.
+Qed.
+
+Lemma purge1_cache_keeps : forall cfg s h now t, ~ In t (pool1 s) -> In t (t_cache s) ->
+  In t (t_cache (purge1 cfg s h now)).
+Proof.
+  intros cfg s h now t Hn Hc. rewrite purge1_eq. destruct (_ && _); [assumption|].
+  assert (G : forall l s, (forall w, In w l -> w_tx w <> t) -> In t (t_cache s) ->
+              In t (t_cache (fold_left evict_one1 l s))).
+  { induction l as [|w l IH]; intros s0 Hl Hc0; cbn [fold_left]; [assumption|].
+    apply IH; [intros; apply Hl; right; assumption|].
+    cbn. apply In_remove_tx. split; [assumption|]. intro E. apply (Hl w); [left; reflexivity | congruence]. }
+  apply G; [|assumption]. intros w Hw E. apply filter_In in Hw as [Hw _]. apply Hn. rewrite <- E.
+  apply in_map. assumption.
+Qed.
+
+(* what Update leaves in the pool *)
+Lemma update1_pool : forall cfg s h now blk pre post rv t, Inv1 cfg s ->
+  In t (pool1 (update1 cfg s h now blk pre post rv)) ->
+  In t (pool1 s) /\ ~ In t (map fst blk) /\
+  (cfg_recheck cfg = true -> accepted (set_checks (t_post s) post) (lookup_res rv t) = true) /\
+  (forall w, In w (t_txs s) -> w_tx w = t ->
+     expired1 cfg h now w = false \/ (cfg_ttl_blocks cfg =? 0) && (cfg_ttl_dur cfg =? 0) = true).
+Proof.
+  intros cfg s h now blk pre post rv t I H. rewrite update1_unfold in H. cbv zeta in H.
+  destruct (update_fold1 cfg blk _ (inv1_upd_state cfg s h pre post I)) as [I2 [Ep2 [_ Epost2]]]. cbv zeta in *.
+  set (s2 := fold_left (update_one1 cfg) blk (upd_state1 s h pre post)) in *.
+  pose proof (inv1_purge cfg s2 h now I2) as I3.
+  set (s3 := purge1 cfg s2 h now) in *.
+  assert (H3 : In t (pool1 s3) /\ (cfg_recheck cfg = true -> accepted (t_post s3) (lookup_res rv t) = true)).
+  { destruct (cfg_recheck cfg).
+    - destruct (recheck1_fold cfg rv (pool1 s3) s3 I3) as [_ [_ Epool]]. cbv zeta in Epool.
+      rewrite Epool in H. apply filter_In in H as [H Ha]. split; [assumption|]. intros _.
+      apply mem_tx_In in H. rewrite H in Ha. exact Ha.
+    - split; [assumption | discriminate]. }
+  destruct H3 as [H3 Ha].
+  assert (H2 : In t (pool1 s2)) by (eapply pool1_purge_incl; exact H3).
+  rewrite Ep2, remove_all_filter in H2. apply filter_In in H2 as [H1 Hb].
+  change (pool1 (upd_state1 s h pre post)) with (pool1 s) in H1.
+  split; [assumption|]. split.
+  - apply negb_true_iff in Hb. apply mem_tx_nIn in Hb. assumption.
+  - split.
+    + intro Hr. specialize (Ha Hr). subst s3. rewrite purge1_post, Epost2 in Ha. exact Ha.
+    + intros w Hw Ew.
+      assert (Hw2 : In w (t_txs s2)).
+      { (* w survives the block loop because its key is still in the pool of s2 *)
+        assert (G : forall blk s0, Inv1 cfg s0 -> In w (t_txs s0) ->
+                    In (w_tx w) (pool1 (fold_left (update_one1 cfg) blk s0)) ->
+                    In w (t_txs (fold_left (update_one1 cfg) blk s0))).
+        { induction blk0 as [|[t' c'] blk0 IHb]; intros s0 I0 Hw0 Hp; cbn [fold_left] in *; [assumption|].
+          apply IHb; [apply inv1_update_one; assumption | | assumption].
+          destruct (update_fold1 cfg blk0 _ (inv1_update_one cfg s0 (t', c') I0)) as [_ [Epp _]]. cbv zeta in Epp.
+          rewrite Epp, remove_all_filter in Hp. apply filter_In in Hp as [Hp _].
+          rewrite update_one1_pool in Hp by assumption. apply In_remove_tx in Hp as [_ Hne]. cbn [fst] in Hne.
+          unfold update_one1, remove_by_key1. cbn [set_cache1 t_keys t_txs].
+          destruct (mem_tx t' (t_keys s0)); [|assumption].
+          destruct (find_wtx t' (t_txs s0)) as [w'|] eqn:Ef; [|assumption]. cbn [fst remove_wtx1 t_txs].
+          apply find_wtx_some in Ef as [_ Ew']. apply filter_In. split; [assumption|].
+          apply negb_true_iff, tx_eqb_neq. congruence. }
+        apply G; [apply inv1_upd_state; assumption | assumption |].
+        rewrite Ew. fold s2. rewrite Ep2, remove_all_filter. apply filter_In. split; assumption. }
+      apply (pool1_purge_not_expired cfg s2 h now w I2 Hw2). rewrite Ew. exact H3.
+Qed.
+
+Lemma update1_cache_remembers : forall cfg s h now blk pre post rv t, Inv1 cfg s ->
+  0 < cfg_cache_size cfg -> Z.of_nat (length blk) <= cfg_cache_size cfg ->
+  In t (map fst blk) -> (forall code, In (t, code) blk -> code = 0) ->
+  In t (t_cache (update1 cfg s h now blk pre post rv)).
+Proof.
+  intros cfg s h now blk pre post rv t I Hc Hl Hin Hall. rewrite update1_unfold. cbv zeta.
+  destruct (update_fold1 cfg blk _ (inv1_upd_state cfg s h pre post I)) as [I2 [Ep2 [Ec2 _]]]. cbv zeta in *.
+  set (s2 := fold_left (update_one1 cfg) blk (upd_state1 s h pre post)) in *.
+  assert (Hc2 : In t (t_cache s2)) by (rewrite Ec2; apply cache_update_remembers; assumption).
+  assert (Hn2 : ~ In t (pool1 s2)).
+  { rewrite Ep2, remove_all_filter, filter_In. intros [_ H]. apply mem_tx_In in Hin. rewrite Hin in H. discriminate. }
+  pose proof (purge1_cache_keeps cfg s2 h now t Hn2 Hc2) as Hc3.
+  assert (Hn3 : ~ In t (pool1 (purge1 cfg s2 h now))) by (intro H; apply Hn2; eapply pool1_purge_incl; exact H).
+  destruct (cfg_recheck cfg); [|assumption].
+  generalize dependent (purge1 cfg s2 h now). intros s3 Hc3 Hn3.
+  assert (G : forall l s0, ~ In t l -> In t (t_cache s0) ->
+              In t (t_cache (fold_left (fun s t => handle_recheck1 cfg s t (lookup_res rv t)) l s0))).
+  { induction l as [|x l IHl]; intros s0 Hnl Hc0; cbn [fold_left]; [assumption|].
+    apply IHl; [intro; apply Hnl; right; assumption|].
+    unfold handle_recheck1. destruct (mem_tx x (t_keys s0)); [|assumption].
+    destruct (find_wtx x (t_txs s0)); [|assumption]. destruct (accepted _ _); [assumption|].
+    destruct (cfg_keep_invalid cfg); [assumption|]. cbn.
+    apply In_remove_tx. split; [assumption|]. intro E. apply Hnl. left. congruence. }
+  apply G; assumption.
+Qed.
+
+Lemma inv1_step : forall cfg s o, Inv1 cfg s -> Inv1 cfg (step1 cfg s o).
+Proof.
+  intros cfg s o I. destruct o; cbn [step1].
+  - apply inv1_checktx. assumption.
+  - apply inv1_update. assumption.
+  - apply inv1_flush. assumption.
+  - apply inv1_remove_by_key. assumption.
+Qed.
+
+Lemma inv1_run : forall cfg ops s, Inv1 cfg s -> Inv1 cfg (run1 cfg s ops).
+Proof.
+  intros cfg ops. unfold run1. induction ops as [|o ops IH]; intros s I; cbn [fold_left]; [assumption|].
+  apply IH. apply inv1_step. assumption.
+Qed.
+
+(* a remembered transaction is refused and does not change the pool *)
+Lemma checktx1_remembered : forall cfg s t p v, Inv1 cfg s -> In t (t_cache s) ->
+  pool1 (fst (fst (checktx1 cfg s t p v))) = pool1 s /\
+  snd (fst (checktx1 cfg s t p v)) <> ENone /\ snd (checktx1 cfg s t p v) = false.
+Proof.
+  intros cfg s t p v I Hc. unfold checktx1.
+  destruct (tx_size t >? cfg_max_tx_bytes cfg); [cbn; repeat split; discriminate|].
+  destruct (negb (precheck_ok (t_pre s) t)); [cbn; repeat split; discriminate|].
+  assert (Hcap : 0 < cfg_cache_size cfg).
+  { destruct (i1_cache _ _ I) as [_ [Hz _]]. destruct (Z_lt_le_dec 0 (cfg_cache_size cfg)); [assumption|].
+    rewrite (Hz l) in Hc. contradiction. }
+  pose proof (proj2 (cache_push_fresh_false (cfg_cache_size cfg) (t_cache s) t) (conj Hcap Hc)) as Hf.
+  destruct (cache_push (cfg_cache_size cfg) (t_cache s) t) as [c' fresh]. cbn [snd] in Hf. subst fresh.
+  cbn [negb fst snd]. repeat split; try discriminate.
+  unfold pool1. cbn [set_txs1 t_txs]. destruct (mem_tx t (t_keys s)); [apply pool1_record_peer | reflexivity].
+Qed.
+
+(* eviction_sound: whatever CheckTx removes from the pool had strictly lower priority than the
+   submitted transaction, which the application accepted and which is in the pool afterwards
+   and was not before *)
+Lemma checktx1_eviction_sound : forall cfg s t p v w, Inv1 cfg s ->
+  In w (t_txs s) -> ~ In (w_tx w) (pool1 (fst (fst (checktx1 cfg s t p v)))) ->
+  w_prio w < v_prio v /\ accepted (t_post s) v = true /\
+  In t (pool1 (fst (fst (checktx1 cfg s t p v)))) /\ ~ In t (pool1 s).
+Proof.
+  intros cfg s t p v w I Hw Hgone.
+  assert (Hk : In (w_tx w) (pool1 s)) by (apply in_map; assumption).
+  unfold checktx1 in *.
+  destruct (tx_size t >? cfg_max_tx_bytes cfg); [contradiction|].
+  destruct (negb (precheck_ok (t_pre s) t)); [contradiction|].
+  destruct (cache_push (cfg_cache_size cfg) (t_cache s) t) as [c' fresh].
+  destruct fresh; cbn [negb fst] in *.
+  2:{ exfalso. apply Hgone. unfold pool1. cbn [set_txs1 t_txs].
+      destruct (mem_tx t (t_keys s)); [rewrite pool1_record_peer|]; assumption. }
+  unfold add_new_tx1 in *. cbn [tick1 set_cache1 t_post t_cache t_keys t_senders t_txs] in *.
+  destruct (accepted (t_post s) v) eqn:Ea; cbn [negb] in *.
+  2:{ exfalso. apply Hgone. destruct (cfg_keep_invalid cfg); assumption. }
+  destruct (mem_tx t (t_keys s)) eqn:Ek.
+  { exfalso. apply Hgone. unfold pool1. cbn [set_txs1 t_txs]. rewrite pool1_record_peer. assumption. }
+  destruct (negb (v_sender v =? 0)%N && mem_sender (v_sender v) (t_senders s)); [contradiction|].
+  set (s1 := tick1 (set_cache1 s c')) in *.
+  assert (Ev : victims1 cfg s1 t (v_prio v) = victims1 cfg s t (v_prio v)) by reflexivity.
+  rewrite Ev in *.
+  destruct (victims1 cfg s t (v_prio v)) as [vs|] eqn:Evs; [|contradiction].
+  destruct (victims1_facts _ _ _ _ _ I Evs) as [Hin [ND [Hp _]]].
+  unfold pool1 in Hgone. cbn [insert_wtx1 t_txs] in Hgone. rewrite map_app in Hgone.
+  fold (pool1 (fold_left evict_one1 vs s1)) in Hgone. rewrite pool1_evict_fold, remove_all_filter in Hgone.
+  change (pool1 s1) with (pool1 s) in Hgone.
+  assert (Hv : In (w_tx w) (map w_tx vs)).
+  { destruct (mem_tx (w_tx w) (map w_tx vs)) eqn:Em; [apply mem_tx_In; assumption|].
+    exfalso. apply Hgone. apply in_or_app. left. apply filter_In. split; [assumption|]. rewrite Em. reflexivity. }
+  apply in_map_iff in Hv as [w' [Ew' Hw']].
+  assert (w' = w).
+  { apply (NoDup_map_inj_in w_tx (t_txs s)); [apply I | apply Hin; assumption | assumption | assumption]. }
+  subst w'. split; [apply Hp; assumption|]. split; [reflexivity|]. split.
+  - unfold pool1. cbn [insert_wtx1 t_txs]. rewrite map_app. apply in_or_app. right. left. reflexivity.
+  - apply mem_tx_nIn in Ek. rewrite (i1_keys _ _ I) in Ek. assumption.
+Qed.
+
+(* --- v1 reap order *)
+
+Definition reap_le (a b : wtx) : Prop :=
+  w_prio a > w_prio b \/ (w_prio a = w_prio b /\ w_stamp a <= w_stamp b).
+
+Lemma reap_before_true : forall a b, reap_before a b = true -> reap_le a b.
+Proof.
+  intros a b. unfold reap_before, reap_le. destruct (w_prio a =? w_prio b) eqn:E.
+  - apply Z.eqb_eq in E. intro H. apply Z.ltb_lt in H. lia.
+  - apply Z.eqb_neq in E. rewrite Z.gtb_ltb. intro H. apply Z.ltb_lt in H. lia.
+Qed.
+Lemma reap_before_false : forall a b, reap_before a b = false -> reap_le b a.
+Proof.
+  intros a b. unfold reap_before, reap_le. destruct (w_prio a =? w_prio b) eqn:E.
+  - apply Z.eqb_eq in E. intro H. apply Z.ltb_ge in H. lia.
+  - apply Z.eqb_neq in E. rewrite Z.gtb_ltb. intro H. apply Z.ltb_ge in H. lia.
+Qed.
+Lemma reap_le_trans : forall a b c, reap_le a b -> reap_le b c -> reap_le a c.
+Proof. unfold reap_le. intros. lia. Qed.
+
+Require Import Sorted.
+
+Lemma insert_by_sorted : forall x l, StronglySorted reap_le l -> StronglySorted reap_le (insert_by reap_before x l).
+Proof.
+  intros x l. induction l as [|y l IH]; intro S; cbn.
+  - constructor; constructor.
+  - inversion S as [|? ? S' Hall]; subst. destruct (reap_before y x) eqn:E.
+    + constructor; [apply IH; assumption|]. apply Forall_forall. intros z Hz.
+      apply In_insert_by in Hz as [->|Hz]; [apply reap_before_true; assumption|].
+      rewrite Forall_forall in Hall. apply Hall. assumption.
+    + constructor; [assumption|]. apply reap_before_false in E. constructor; [assumption|].
+      rewrite Forall_forall in *. intros z Hz. eapply reap_le_trans; [exact E | apply Hall; assumption].
+Qed.
+
+Lemma order1_sorted : forall s, StronglySorted reap_le (order1 s).
+Proof.
+  intro s. unfold order1, sort_by. induction (t_txs s) as [|x l IH]; cbn; [constructor|].
+  apply insert_by_sorted. exact IH.
+Qed.
+
+Lemma order1_perm : forall s, Permutation (order1 s) (t_txs s).
+Proof. intro. apply sort_by_perm. Qed.
+
+Lemma reap_max_txs1_spec : forall s n,
+  (n < 0 -> reap_max_txs1 s n = map w_tx (order1 s)) /\
+  (0 <= n -> reap_max_txs1 s n = firstn (Z.to_nat n) (map w_tx (order1 s)) /\
+             Z.of_nat (length (reap_max_txs1 s n)) = Z.min n (Z.of_nat (length (t_txs s)))).
+Proof.
+  intros s n. unfold reap_max_txs1. split; intro H.
+  - assert (E : (n <? 0) = true) by (apply Z.ltb_lt; assumption). rewrite E. reflexivity.
+  - assert (E : (n <? 0) = false) by (apply Z.ltb_ge; assumption). rewrite E.
+    split; [reflexivity|]. rewrite firstn_length, map_length.
+    rewrite (Permutation_length (order1_perm s)). lia.
+Qed.
+
+(* arrival stamps: strictly increasing along the list and below the clock, so "ties by stamp"
+   is "ties by arrival" *)
+Definition StampsOk (s : state1) : Prop :=
+  StronglySorted (fun a b => w_stamp a < w_stamp b) (t_txs s) /\
+  Forall (fun w => w_stamp w < t_clock s) (t_txs s).
+
+Lemma ss_filter : forall {A} (R : A -> A -> Prop) (f : A -> bool) l,
+  StronglySorted R l -> StronglySorted R (filter f l).
+Proof.
+  intros A R f l. induction l as [|x l IH]; intro S; cbn; [constructor|].
+  inversion S; subst. destruct (f x); [|apply IH; assumption].
+  constructor; [apply IH; assumption|]. rewrite Forall_forall in *. intros y Hy.
+  apply filter_In in Hy as [Hy _]. auto.
+Qed.
+
+Lemma forall_filter : forall {A} (P : A -> Prop) (f : A -> bool) l, Forall P l -> Forall P (filter f l).
+Proof.
+  intros. rewrite Forall_forall in *. intros y Hy. apply filter_In in Hy as [Hy _]. auto.
+Qed.
+
+Lemma ss_map_stamp : forall (f : wtx -> wtx) l, (forall w, w_stamp (f w) = w_stamp w) ->
+  StronglySorted (fun a b => w_stamp a < w_stamp b) l ->
+  StronglySorted (fun a b => w_stamp a < w_stamp b) (map f l).
+Proof.
+  intros f l Hf. induction l as [|x l IH]; intro S; cbn; [constructor|].
+  inversion S; subst. constructor; [apply IH; assumption|]. rewrite Forall_forall in *.
+  intros y Hy. apply in_map_iff in Hy as [z [<- Hz]]. rewrite !Hf. auto.
+Qed.
+
+Lemma forall_map_stamp : forall (f : wtx -> wtx) l c, (forall w, w_stamp (f w) = w_stamp w) ->
+  Forall (fun w => w_stamp w < c) l -> Forall (fun w => w_stamp w < c) (map f l).
+Proof.
+  intros f l c Hf H. rewrite Forall_forall in *. intros y Hy. apply in_map_iff in Hy as [z [<- Hz]].
+  rewrite Hf. auto.
+Qed.
+
+Lemma stamps_evict_fold : forall vs s, StampsOk s -> StampsOk (fold_left evict_one1 vs s).
+Proof.
+  induction vs as [|w vs IH]; intros s H; cbn [fold_left]; [assumption|]. apply IH.
+  destruct H as [H1 H2]. split; cbn; [apply ss_filter | apply forall_filter]; assumption.
+Qed.
+
+Lemma ss_snoc : forall l x, StronglySorted (fun a b => w_stamp a < w_stamp b) l ->
+  Forall (fun w => w_stamp w < w_stamp x) l ->
+  StronglySorted (fun a b => w_stamp a < w_stamp b) (l ++ [x]).
+Proof.
+  induction l as [|y l IH]; intros x S F; cbn; [constructor; constructor|].
+  inversion S; subst. inversion F; subst. constructor; [apply IH; assumption|].
+  apply Forall_app. split; [assumption|]. constructor; [assumption | constructor].
+Qed.
+
+Lemma stamps_checktx : forall cfg s t p v, StampsOk s -> StampsOk (fst (fst (checktx1 cfg s t p v))).
+Proof.
+  intros cfg s t p v [H1 H2]. unfold checktx1.
+  destruct (tx_size t >? cfg_max_tx_bytes cfg); [split; assumption|].
+  destruct (negb (precheck_ok (t_pre s) t)); [split; assumption|].
+  destruct (cache_push (cfg_cache_size cfg) (t_cache s) t) as [c' fresh].
+  destruct fresh; cbn [negb fst].
+  2:{ unfold StampsOk. cbn [set_txs1 set_cache1 t_txs t_clock].
+      destruct (mem_tx t (t_keys s)); [|split; assumption]. unfold record_peer1.
+      split; [apply ss_map_stamp | apply forall_map_stamp]; try assumption;
+        intro w; destruct (tx_eqb t (w_tx w)); reflexivity. }
+  assert (Hweak : Forall (fun w => w_stamp w < t_clock s + 1) (t_txs s)).
+  { rewrite Forall_forall in *. intros w Hw. specialize (H2 w Hw). lia. }
+  assert (S1 : StampsOk (tick1 (set_cache1 s c'))) by (split; cbn; assumption).
+  unfold add_new_tx1. set (s1 := tick1 (set_cache1 s c')) in *.
+  destruct (negb (accepted (t_post s1) v)).
+  { destruct (cfg_keep_invalid cfg); assumption. }
+  destruct (mem_tx t (t_keys s1)).
+  { unfold StampsOk. cbn [set_txs1 t_txs t_clock]. unfold record_peer1. destruct S1 as [A B].
+    split; [apply ss_map_stamp | apply forall_map_stamp]; try assumption;
+      intro w; destruct (tx_eqb t (w_tx w)); reflexivity. }
+  destruct (negb (v_sender v =? 0)%N && mem_sender (v_sender v) (t_senders s1)); [assumption|].
+  destruct (victims1 cfg s1 t (v_prio v)) as [vs|]; [|assumption].
+  pose proof (stamps_evict_fold vs s1 S1) as [A B].
+  assert (Ec : forall l s0, t_clock (fold_left evict_one1 l s0) = t_clock s0).
+  { induction l as [|w l IH]; intro s0; cbn [fold_left]; [reflexivity|]. rewrite IH. reflexivity. }
+  (* the evicted state still has only stamps of the old clock *)
+  assert (B' : Forall (fun w => w_stamp w < t_clock s) (t_txs (fold_left evict_one1 vs s1))).
+  { assert (G : forall l s0, Forall (fun w => w_stamp w < t_clock s) (t_txs s0) ->
+                Forall (fun w => w_stamp w < t_clock s) (t_txs (fold_left evict_one1 l s0))).
+    { induction l as [|w l IH]; intros s0 F; cbn [fold_left]; [assumption|]. apply IH. cbn.
+      apply forall_filter. assumption. }
+    apply G. assumption. }
+  split; cbn [insert_wtx1 t_txs t_clock].
+  - apply ss_snoc; [assumption|]. cbn [w_stamp]. assumption.
+  - rewrite Ec. unfold s1. cbn [tick1 set_cache1 t_clock]. apply Forall_app. split.
+    + rewrite Forall_forall in *. intros w Hw. specialize (B' w Hw). lia.
+    + constructor; [cbn [w_stamp]; lia | constructor].
+Qed.
+
+Lemma stamps_remove_by_key : forall s t, StampsOk s -> StampsOk (fst (remove_by_key1 s t)).
+Proof.
+  intros s t [A B]. unfold remove_by_key1. destruct (mem_tx t (t_keys s)); [|split; assumption].
+  destruct (find_wtx t (t_txs s)); [|split; assumption]. cbn.
+  split; cbn; [apply ss_filter | apply forall_filter]; assumption.
+Qed.
+
+Lemma stamps_update : forall cfg s h now blk pre post rv, StampsOk s ->
+  StampsOk (update1 cfg s h now blk pre post rv).
+Proof.
+  intros cfg s h now blk pre post rv H. rewrite update1_unfold. cbv zeta.
+  assert (S1 : StampsOk (upd_state1 s h pre post)) by exact H.
+  assert (S2 : StampsOk (fold_left (update_one1 cfg) blk (upd_state1 s h pre post))).
+  { generalize dependent (upd_state1 s h pre post). induction blk as [|[t c] blk IH]; intros s0 S0; cbn [fold_left]; [assumption|].
+    apply IH. unfold update_one1. apply stamps_remove_by_key. exact S0. }
+  set (s2 := fold_left (update_one1 cfg) blk (upd_state1 s h pre post)) in *.
+  assert (S3 : StampsOk (purge1 cfg s2 h now)).
+  { rewrite purge1_eq. destruct (_ && _); [assumption|]. apply stamps_evict_fold. assumption. }
+  destruct (cfg_recheck cfg); [|assumption].
+  generalize dependent (purge1 cfg s2 h now). intros s3 S3. generalize (pool1 s3). intro l. revert s3 S3.
+  induction l as [|t l IH]; intros s3 S3; cbn [fold_left]; [assumption|]. apply IH.
+  unfold handle_recheck1. destruct (mem_tx t (t_keys s3)); [|assumption].
+  destruct (find_wtx t (t_txs s3)); [|assumption]. destruct S3 as [A B].
+  destruct (accepted _ _).
+  - unfold StampsOk, set_prio1. cbn [set_txs1 t_txs t_clock].
+    split; [apply ss_map_stamp | apply forall_map_stamp]; try assumption;
+      intro w0; destruct (tx_eqb t (w_tx w0)); reflexivity.
+  - destruct (cfg_keep_invalid cfg); split; cbn; try apply ss_filter; try apply forall_filter; assumption.
+Qed.
+
+Lemma stamps_run : forall cfg ops s, StampsOk s -> StampsOk (run1 cfg s ops).
+Proof.
+  intros cfg ops. unfold run1. induction ops as [|o ops IH]; intros s H; cbn [fold_left]; [assumption|].
+  apply IH. destruct o; cbn [step1].
+  - apply stamps_checktx. assumption.
+  - apply stamps_update. assumption.
+  - split; cbn; constructor.
+  - apply stamps_remove_by_key. assumption.
+Qed.
+
+Lemma stamps_init : forall h pre post, StampsOk (init1 h pre post).
+Proof. intros. split; cbn; constructor. Qed.
